@@ -113,7 +113,16 @@ def run_cases(ctx, n_tables, check_model):
             ctx.count('tables_flags_set_after_use')
             pairs = pairs + [['flags set after a first lookup']]
         else:
-            t = interpDict(*pairs, extrapolate_low=exlo, extrapolate_high=exhi)
+            # construction forms: a flag that is off may simply be left out (its documented default is off)
+            kw = {}
+            if exlo or ctx.rng.random() < 0.5:
+                kw['extrapolate_low'] = exlo
+            if exhi or ctx.rng.random() < 0.5:
+                kw['extrapolate_high'] = exhi
+            ctx.count('tables_built_with_' + ('+'.join(sorted(kw)) or 'no flags'))
+            t = interpDict(*pairs, **kw)
+            if len(kw) < 2:
+                pairs = pairs + [['only these flags were given: ' + ', '.join(f'{k_}={v_}' for k_, v_ in sorted(kw.items()))]]
         for q in queries(ctx.rng, keys):
             try:
                 r = ('ok', t[q])
@@ -176,22 +185,43 @@ def monitor(ctx, extended=False):
                           {'keys': keys, 'vals': vals, 'extrapolate_low': exlo, 'extrapolate_high': exhi, 'query': q, 'inserted_as': ins}, key='lookup-spec')
         if q in keys or q < keys[0] or q > keys[-1]:
             nontrivial.add((tuple(keys), q))
-    # item assignment refused
-    for _ in range(20):
-        keys, vals, exlo, exhi = gen_table(ctx.rng)
-        t = interpDict(*zip(keys, vals), extrapolate_low=exlo, extrapolate_high=exhi)
+    # item assignment refused - whichever way the table was built (point tuples / a dict / a dict that is itself a table), and for the shipped tables
+    def refuses(t, label, keys, probe_keys):
         before = dict(t)
-        for k in (keys[0], 12345.678):
+        for k in probe_keys:
             ctx.count('evaluations')
             try:
-                t[k] = 1.0
-                ctx.violation('item assignment accepted', {'keys': keys, 'key': k}, key='setitem')
+                t[k] = before.get(k, 1.0)      # an accepted assignment of the stored value leaves a shared table as it was
+                ctx.violation(f'item assignment accepted ({label})', {'keys': keys, 'key': k, 'built': label}, key='setitem')
+                if k not in before:
+                    dict.__delitem__(t, k)
             except KeyError:
                 pass
             except Exception as e:   # noqa
-                ctx.violation(f'item assignment raised {type(e).__name__}', {'keys': keys, 'key': k}, key='setitem')
+                ctx.violation(f'item assignment raised {type(e).__name__} ({label})', {'keys': keys, 'key': k, 'built': label}, key='setitem')
         if dict(t) != before:
-            ctx.violation('table changed by a refused assignment', {'keys': keys}, key='setitem')
+            ctx.violation(f'table changed by a refused assignment ({label})', {'keys': keys, 'built': label}, key='setitem')
+    for i in range(20):
+        keys, vals, exlo, exhi = gen_table(ctx.rng)
+        forms = {'points': lambda: interpDict(*zip(keys, vals), extrapolate_low=exlo, extrapolate_high=exhi),
+                 'dict': lambda: interpDict(dict(zip(keys, vals)), extrapolate_low=exlo, extrapolate_high=exhi),
+                 'dict, no flags': lambda: interpDict(dict(zip(keys, vals))),
+                 'another table': lambda: interpDict(interpDict(*zip(keys, vals))) if type(interpDict(*zip(keys, vals))) == dict else interpDict(dict(interpDict(*zip(keys, vals))))}
+        for label, build in forms.items():
+            t = build()
+            refuses(t, label, keys, (keys[0], 12345.678))
+            if i < 3:
+                # and again after the table has been used
+                try:
+                    t[keys[0]]
+                    t[(keys[0] + keys[-1]) / 2]
+                except IndexError:
+                    pass
+                refuses(t, label + ', after lookups', keys, (keys[-1], -98765.4))
+    for name in ('water_density', 'water_dynamic_viscosity', 'water_viscosity', 'Arel_to_beta'):
+        tbl = getattr(K, name)
+        ks = sorted(tbl.keys())
+        refuses(tbl, 'shipped table ' + name, [float(k) for k in ks], (ks[0], ks[len(ks) // 2], 12345.678))
     # shipped tables
     for name in ('water_density', 'water_dynamic_viscosity', 'water_viscosity'):
         tbl = getattr(K, name)
@@ -212,6 +242,20 @@ def replay(v):
     if 'query' not in i:
         return None
     ins = i.get('inserted_as') or [list(x) for x in zip(i['keys'], i['vals'])]
+    if ins and len(ins[-1]) == 1 and str(ins[-1][0]).startswith('only these flags'):
+        ins = ins[:-1]
+        kw = {}
+        if i['extrapolate_low']:
+            kw['extrapolate_low'] = True
+        if i['extrapolate_high']:
+            kw['extrapolate_high'] = True
+        t = interpDict(*ins, **kw)
+        try:
+            r = ('ok', t[i['query']])
+        except IndexError:
+            r = ('IndexError',)
+        want = oracle_lookup(i['keys'], i['vals'], i['extrapolate_low'], i['extrapolate_high'], 0.001, i['query'])
+        return None if (want[0] == r[0] and (want[0] != 'ok' or same_float(want[1], r[1]) or abs(want[1] - r[1]) <= 1e-12 * max(abs(v) for v in i['vals']))) else f'lookup gives {r}, specification gives {want}'
     late = bool(ins) and len(ins[-1]) == 1
     if late:
         ins = ins[:-1]
